@@ -420,51 +420,25 @@ impl IoLoop {
         match event.token() {
             STREAM => {
                 let step_before = std::mem::discriminant(&*state);
+                // Reading comes first, and a write that fails looks at what has arrived
+                // before giving up: a broker that refuses us (or goes down) may hang up
+                // without waiting for anything once it has sent its Connection.Close, and
+                // the close is what happened, not the socket failing behind it.
+                if event.readiness().is_readable() && self.handshake_read(stream, state)? {
+                    return Ok(());
+                }
                 if event.readiness().is_writable() {
                     let result = self.inner.write_to_stream(stream);
-                    // (see below: the peer may be gone once it has sent its Close)
-                    if let (HandshakeState::ServerClosing(_), Err(_)) = (&*state, &result) {
-                        self.inner.outbuf.clear();
-                        return Ok(());
-                    }
-                    result?;
-                }
-                if event.readiness().is_readable() {
-                    let after_handshake = &mut self.frames_after_handshake;
-                    let result = self.inner.read_from_stream(
-                        stream,
-                        &mut self.frame_buffer,
-                        |inner, frame| match state {
-                            HandshakeState::Done(_, _) => {
-                                after_handshake.push(frame);
-                                Ok(())
-                            }
-                            _ => state.process(inner, frame),
-                        },
-                    );
-                    // A broker that refuses us, or goes down right after accepting us, may
-                    // hang up without waiting for the CloseOk. When the stream ends behind
-                    // its Connection.Close in the same pass, the close is what happened.
                     if result.is_err() {
                         match state {
-                            HandshakeState::ServerClosing(_) => {
-                                self.inner.outbuf.clear();
-                                return Ok(());
+                            HandshakeState::ServerClosing(_) => {}
+                            _ => {
+                                let _ = self.handshake_read(stream, state);
                             }
-                            HandshakeState::Done(_, _)
-                                if self.frames_after_handshake.iter().any(|frame| match frame {
-                                    AMQPFrame::Method(
-                                        0,
-                                        AMQPClass::Connection(
-                                            amq_protocol::protocol::connection::AMQPMethod::Close(_),
-                                        ),
-                                    ) => true,
-                                    _ => false,
-                                }) =>
-                            {
-                                return Ok(());
-                            }
-                            _ => {}
+                        }
+                        if let HandshakeState::ServerClosing(_) = state {
+                            self.inner.outbuf.clear();
+                            return Ok(());
                         }
                     }
                     result?;
@@ -477,6 +451,52 @@ impl IoLoop {
             _ => unreachable!(),
         }
         Ok(())
+    }
+
+    // Reads what has arrived. true: the socket ended behind the server's Connection.Close
+    // in this pass; the close is what happened and there is nothing more to do with the
+    // socket.
+    fn handshake_read<Auth: Sasl, S: IoStream>(
+        &mut self,
+        stream: &mut S,
+        state: &mut HandshakeState<Auth>,
+    ) -> Result<bool> {
+        let after_handshake = &mut self.frames_after_handshake;
+        let result = self.inner.read_from_stream(
+            stream,
+            &mut self.frame_buffer,
+            |inner, frame| match state {
+                HandshakeState::Done(_, _) => {
+                    after_handshake.push(frame);
+                    Ok(())
+                }
+                _ => state.process(inner, frame),
+            },
+        );
+        if result.is_err() {
+            match state {
+                HandshakeState::ServerClosing(_) => {
+                    self.inner.outbuf.clear();
+                    return Ok(true);
+                }
+                HandshakeState::Done(_, _)
+                    if self.frames_after_handshake.iter().any(|frame| match frame {
+                        AMQPFrame::Method(
+                            0,
+                            AMQPClass::Connection(
+                                amq_protocol::protocol::connection::AMQPMethod::Close(_),
+                            ),
+                        ) => true,
+                        _ => false,
+                    }) =>
+                {
+                    return Ok(true);
+                }
+                _ => {}
+            }
+        }
+        result?;
+        Ok(false)
     }
 
     fn is_handshake_done<Auth: Sasl>(&self, state: &HandshakeState<Auth>) -> bool {
